@@ -25,6 +25,8 @@ def run_actions(model, t, acts):
                 # the filter turned the warning into an exception: remember what the cell held (oracle: it must stay)
                 model.__dict__['_blocked'].append([a[1], int(t), before.hex() if before == before and abs(before) != float('inf') else repr(before)])
                 raise
+            # the filter let the warning pass (recorded and dropped): the statement stores
+            model.__dict__.setdefault('_warn_stored', []).append([a[1], int(t)])
             model.__dict__['_V%d' % a[1]][t] = unhex(a[2])
         elif k == 'raise':
             raise CAUSES[a[1]]('scripted')
@@ -101,4 +103,5 @@ def instantiate(cls, span, vals, status, iters, scripts, lags=0, leads=0):
     m.__dict__['_passvecs'] = []
     m.__dict__['_raised'] = []
     m.__dict__['_blocked'] = []
+    m.__dict__['_warn_stored'] = []
     return m
